@@ -56,7 +56,7 @@ def realize(a, resolvers=None, extra=None):
         if k == "scalar":
             reg[n] = ScalarType(n, serialize=lambda v: v, parse=lambda v: v)
         elif k == "enum":
-            reg[n] = EnumType(n, [EnumValue(v["name"], deprecation_reason=(v.get("dep") or None), **({"value": v["py"]} if v.get("py") else {}))
+            reg[n] = EnumType(n, [EnumValue(v["name"], deprecation_reason=("" if v.get("dep") == "EMPTY" else (v.get("dep") or None)), **({"value": v["py"]} if v.get("py") else {}))
                                   for v in t.get("values", [])])
         elif k == "input":
             reg[n] = InputObjectType(n, (lambda t=t: [InputField(f["name"], ref(f["type"]), **({"default_value": pv(f["def"])} if f.get("hasDef") else {}))
